@@ -2,7 +2,8 @@
     threshold comparison is the hardware comparison the Rust code performs). *)
 From Coq Require Import List Arith ZArith NArith Lia Bool Floats.
 Import ListNotations.
-Require Import Clarabel.Base.Ops Clarabel.Csc.Model Clarabel.Csc.Check Clarabel.Presolve.Model.
+Require Import Clarabel.Base.Ops Clarabel.Csc.Model Clarabel.Csc.Spec Clarabel.Csc.Check.
+Require Import Clarabel.Presolve.Model Clarabel.Presolve.Spec.
 
 Definition rawF := @raw float.
 Definition RF (m n : N) (cp rv : list N) (nz : list float) : rawF :=
@@ -33,21 +34,103 @@ Definition cone_eqb (a b : cone) : bool :=
 Definition eps64 : float := 0x1p-52%float.
 Definition ten : float := 10%float.
 
-(** construction: internal (A, b, cones) and the keep-map *)
-Definition c_build (pe : bool) (inf : float) (A : rawF) (b : list float) (cones : list cone)
-           (outA : rawF) (outb : list float) (outcones : list cone)
-           (outkeep : option (list bool)) : N :=
-  let I := build OpsF pe eps64 ten inf (decode A) b cones in
-  maxl [ ofb (raw_eqbF (encode (iA I)) outA);
-         ofb (flist_eqb (ib I) outb);
-         ofb (list_eqb cone_eqb (icones I) outcones);
-         ofb (match ikeep I, outkeep with
-              | Some k, Some k' => list_eqb Bool.eqb k k'
-              | None, None => true
-              | _, _ => false
-              end) ].
 
-(** reversal: the user-visible s,z are the expansion of the internal ones *)
+(** Comparison relation = the observables the property talks about: the dense meaning of the
+    internal A (plus well-formedness of its encoding), the internal right-hand side, the meaning
+    of every internal row ([rowsig]: scalar nonnegativity row / position [k] of cone [c]), the
+    set of dropped rows, and the user-visible s and z.  Codes: 0 agree, 1 violation candidate,
+    2 observables agree but the stored representation differs from the model's. *)
+Definition dense_eqbF (a b : list (list float)) : bool := list_eqb flist_eqb a b.
+Definition same_denseF (a b : @csc float) : bool :=
+  (nr a =? nr b) && (nc a =? nc b) && dense_eqbF (to_dense OpsF a) (to_dense OpsF b).
+Definition fmt_okF (r : rawF) : bool :=
+  match check_format r with FmtOk => true | _ => false end.
+Definition rowtag_eqb (a b : rowtag) : bool :=
+  match a, b with
+  | RNN, RNN => true
+  | RIn c i, RIn d j => cone_eqb c d && (i =? j)
+  | _, _ => false
+  end.
+Definition keep_full (k : option (list bool)) (m : nat) : list bool :=
+  match k with Some k => k | None => repeat true m end.
+Definition optkeep_eqb (a b : option (list bool)) : bool :=
+  match a, b with
+  | Some k, Some k' => list_eqb Bool.eqb k k'
+  | None, None => true
+  | _, _ => false
+  end.
+Definition blist_eqb := list_eqb Bool.eqb.
+
+(** construction: internal (A, b, cones, m) and the keep-map.  [params_ok] is the harness's
+    own comparison of the cone parameters the model does not carry (power-cone exponents). *)
+Definition c_build (pe : bool) (inf : float) (A : rawF) (b : list float) (cones : list cone)
+           (outA : rawF) (outb : list float) (outcones : list cone) (outm : N)
+           (outkeep : option (list bool)) (params_ok : bool) : N :=
+  let I := build OpsF pe eps64 ten inf (decode A) b cones in
+  let m := length b in
+  if negb (fmt_okF outA && same_denseF (decode outA) (iA I)
+           && flist_eqb (ib I) outb
+           && list_eqb rowtag_eqb (rowsig (icones I)) (rowsig outcones)
+           && blist_eqb (keep_full (ikeep I) m) (keep_full outkeep m)
+           && (N.to_nat outm =? nr (iA I)) && params_ok)
+  then 1%N
+  else if raw_eqbF (encode (iA I)) outA && list_eqb cone_eqb (icones I) outcones
+          && optkeep_eqb (ikeep I) outkeep
+  then 0%N else 2%N.
+
+(** the property's own description of the dropped rows, evaluated directly (not through the
+    model of the code): scalar-nonnegative row of the user's cone list with b above the
+    contracted threshold *)
+Definition prop_keep (inf : float) (b : list float) (cones : list cone) : list bool :=
+  map (fun p => negb (match fst p with RNN => true | _ => false end
+                      && PrimFloat.ltb (threshold OpsF eps64 ten inf) (snd p)))
+      (combine (rowsig cones) b).
+
+(** solve level: the user-visible (s, z) are the expansion of the internal ones (length,
+    ordering, fill values); the kept entries are bit-for-bit the (s, z) returned for the
+    hand-reduced problem (A2, b2), which is the model's reduced problem *)
+Fixpoint fills_ok (keep : list bool) (v : list float) (fill : float) : bool :=
+  match keep, v with
+  | [], [] => true
+  | k :: keep', x :: v' => (k || feqb x fill) && fills_ok keep' v' fill
+  | _, _ => false
+  end.
+Definition c_solve (pe : bool) (inf : float) (A : rawF) (b : list float) (cones : list cone)
+           (s_int z_int s_out z_out : list float)
+           (keep_hand : list bool) (A2 : rawF) (b2 : list float) (s2 z2 : list float)
+           (rust_flags : bool) : N :=
+  let I := build OpsF pe eps64 ten inf (decode A) b cones in
+  let m := length b in
+  let keep := keep_full (ikeep I) m in
+  if negb (N.eqb (maxl
+       [ ofb (length s_out =? m); ofb (length z_out =? m);
+         ofb (fills_ok keep s_out inf); ofb (fills_ok keep z_out 0%float);
+         ofb (negb pe || blist_eqb keep (prop_keep inf b cones));
+         ofb (negb pe || blist_eqb keep keep_hand);
+         ofb (negb pe || (fmt_okF A2 && same_denseF (decode A2) (select_rows (decode A) keep_hand)));
+         ofb (negb pe || flist_eqb b2 (select b keep_hand));
+         ofb (negb pe || flist_eqb (select s_out keep_hand) s2);
+         ofb (negb pe || flist_eqb (select z_out keep_hand) z2);
+         ofb rust_flags ]) 0) then 1%N
+  else
+    (* information only: the solver's own variable block after solve is the internal solution
+       and the returned vectors are its expansion *)
+    if flist_eqb (reverse_s (ikeep I) inf s_int) s_out && flist_eqb (reverse_z OpsF (ikeep I) z_int) z_out
+    then 0%N else 2%N.
+
+(** restoring alone (used when the internal variables are not those of the reduced problem,
+    e.g. with chordal decomposition switched on): user's length, fill values at the rows the
+    property says are dropped, kept entries = those of the hand-reduced problem *)
+Definition c_restore (inf : float) (b : list float) (cones : list cone)
+           (s_out z_out : list float) (keep_hand : list bool) (s2 z2 : list float)
+           (rust_flags : bool) : N :=
+  maxl [ ofb (blist_eqb keep_hand (prop_keep inf b cones));
+         ofb (fills_ok keep_hand s_out inf); ofb (fills_ok keep_hand z_out 0%float);
+         ofb (flist_eqb (select s_out keep_hand) s2);
+         ofb (flist_eqb (select z_out keep_hand) z2);
+         ofb rust_flags ].
+
+(** reversal alone *)
 Definition c_reverse (keep : option (list bool)) (inf : float)
            (s_int z_int s_out z_out : list float) : N :=
   maxl [ ofb (flist_eqb (reverse_s keep inf s_int) s_out);
